@@ -207,3 +207,14 @@ void f_vf_obj_dtor(uint8_t *p)
     if (p == g_o) g_o_alive = 0;
     g_obj_dtor++; g_obj_live--;
 }
+
+/* ---- exception runtime of exception-enabled configurations (C17): one "exception pending" flag (see DESIGN 3.3) ---- */
+uint8_t *f___cxa_begin_catch(uint8_t *e) { cntgs_exc = 0; return e; }
+void f___cxa_end_catch(void) {}
+void f___cxa_rethrow(void) { cntgs_exc = 1; }
+void f__ZSt9terminatev(void) { __CPROVER_assert(0, "std::terminate is not reached (an exception does not escape a noexcept function)"); __CPROVER_assume(0); }
+uint8_t *f___cxa_allocate_exception(uint64_t n) { (void)n; return 0; }
+void f___cxa_throw(uint8_t *a, uint8_t *b, uint8_t *c) { (void)a; (void)b; (void)c; cntgs_exc = 1; }
+void f___cxa_free_exception(uint8_t *a) { (void)a; }
+void f__ZSt17__throw_bad_allocv(void) { cntgs_exc = 1; }
+void f__ZSt28__throw_bad_array_new_lengthv(void) { cntgs_exc = 1; }
